@@ -90,7 +90,13 @@ impl SocketRecv for RouterSocket {
 #[async_trait]
 impl SocketSend for RouterSocket {
     async fn send(&mut self, mut message: ZmqMessage) -> ZmqResult<()> {
-        assert!(message.len() > 1);
+        if message.len() < 2 {
+            // Reachable with messages that originate from a peer (e.g. forwarded by `proxy`),
+            // so this must be an error, not an assertion.
+            return Err(ZmqError::Other(
+                "Router send requires an identity frame followed by at least one more frame",
+            ));
+        }
         let peer_id: PeerIdentity = message.pop_front().unwrap().try_into()?;
         match self.backend.peers.get_async(&peer_id).await {
             Some(mut peer) => {
